@@ -348,6 +348,37 @@ pub fn families(tier: Tier, _variant: &str) -> Vec<Family> {
             }
         }));
     }
+    // every ASCII byte inserted / substituted at every position of short documents, into the types
+    // those documents fit (what separates tokens is decided per byte value)
+    {
+        let seeds: [&'static str; 3] = ["[1,-2,30]", "{\"a\":7,\"b\":\"s\",\"c\":true}", " [ 255 , \"x\\ty\" ] "];
+        for (si, seed) in seeds.iter().enumerate() {
+            let seed = seed.as_bytes();
+            v.push(Family::new(&format!("ascii-neighbourhood/seed{si}"), gen::byte_neighbourhood_count(seed), move |idx, ctx| {
+                let d = gen::byte_neighbourhood(seed, idx);
+                let Ok(s) = std::str::from_utf8(&d) else {
+                    ctx.outcome("skipped:not-utf8-text");
+                    return;
+                };
+                match si {
+                    0 => {
+                        check_typed::<Vec<i32>>(ctx, s);
+                        check_typed::<[i16; 3]>(ctx, s);
+                        check_typed::<Vec<f64>>(ctx, s);
+                    }
+                    1 => {
+                        check_typed::<crate::types::Plain>(ctx, s);
+                        check_typed::<serde_json::Value>(ctx, s);
+                    }
+                    _ => {
+                        check_typed::<(u8, String)>(ctx, s);
+                        check_typed::<crate::types::TupleStruct>(ctx, s);
+                    }
+                }
+                ctx.nontrivial();
+            }));
+        }
+    }
     // byte-buffer targets: every short B11 body (escapes, raw non-UTF-8 bytes, control bytes) as the
     // JSON string a byte buffer is read from, alone, followed by another string (state carried to
     // the next string of the document) and twice in a row
